@@ -6,10 +6,10 @@ pub use self::file_number::{FileNumber, FileTracker};
 
 const FRAME_NUM_BYTES: usize = 1 << 15;
 
-#[cfg(not(test))]
+#[cfg(not(any(test, mrecordlog_verif)))]
 const NUM_BLOCKS_PER_FILE: usize = 1 << 12;
 
-#[cfg(test)]
+#[cfg(any(test, mrecordlog_verif))]
 const NUM_BLOCKS_PER_FILE: usize = 4;
 
 const FILE_NUM_BYTES: usize = FRAME_NUM_BYTES * NUM_BLOCKS_PER_FILE;
